@@ -262,6 +262,22 @@ def check(case, ctx):
     ir = INTERNAL[case['ir']]
     ntr, ctr = TERM[case['nt']], TERM[case['ct']]
     nforms = 0
+    if not case['pre'] and case['nt'] == 0 and case['ct'] == 0:
+        # rule values given as NUMBERS, the same number once as an int and once as a float in one process (either order):
+        # each is written the way it was given
+        first = seq[0]
+        for a_, b_ in ((1, 1.0), (16.0, 16)):
+            for val in (a_, b_):
+                want = seq.replace(first, f'{first}[{val}]')
+                r = lib.call(p.apply_static_mods, seq, {first: [val]})
+                ctx.evals += 1
+                if r[0] != 'ok' or r[1] != want:
+                    ctx.fail('static-numeric-value', want, r[1], call=['apply_static_mods', seq, {first: [val]}],
+                             note='asked after the same number of the other numeric type')
+        r = lib.call(p.apply_variable_mods, seq[0], {seq[0]: [[16], [16.0]]}, 1)
+        want = sorted([f'{first}[16]', f'{first}[16.0]', first])
+        if r[0] != 'ok' or sorted(r[1]) != want:
+            ctx.fail('variable-numeric-values', want, r[1], call=['apply_variable_mods', seq[0], {seq[0]: [[16], [16.0]]}, 1])
     # ---- static
     sir, sntr, sctr = static_internal(ir), static_term(ntr), static_term(ctr)
     for mode in ('skip', 'append', 'overwrite'):
